@@ -696,14 +696,14 @@ impl FaitAccompli2Sampler {
 
     fn minimize_f(validators: &[ValidatorInfo], k: u64) -> Vec<f64> {
         let total_stake: Stake = validators.iter().map(|v| v.stake).sum();
-        let f: Vec<f64> = validators
+        let rounded: Vec<f64> = validators
             .iter()
-            .map(|v| {
-                (v.stake.inner() as f64 / total_stake.inner() as f64 * k as f64).round() / k as f64
-            })
+            .map(|v| (v.stake.inner() as f64 / total_stake.inner() as f64 * k as f64).round())
             .collect();
-        assert!(f.iter().sum::<f64>() <= 1.0);
-        f
+        // compare the (exact) sum of the integral seat counts with `k`;
+        // summing the inexact quotients `seats / k` can exceed 1.0 by rounding alone
+        assert!(rounded.iter().sum::<f64>() <= k as f64);
+        rounded.into_iter().map(|seats| seats / k as f64).collect()
     }
 }
 
